@@ -115,6 +115,19 @@ def check_insert(ctx: Ctx, rid: str, ins: FuncInfo, leftF: str, rightF: str, lis
                 qins.append((qname, C.fmt(C.subst_val(e.d['args'][0], {key_of(R): key_of(right)})),
                              C.fmt(C.subst_val(e.d['args'][1], {key_of(R): key_of(right)}))))
         summaries.append({'hinted': not unhinted, 'queue': sorted(qins)})
+        # completeness of the queueing: with a hint (the caller has just recomputed both characteristics) both the
+        # new interval and its right neighbour must enter the global queue, keyed by their own globalR
+        if not unhinted:
+            want_q = {(C.fmt(attr(new, 'globalR')), C.fmt(new)), (C.fmt(attr(right, 'globalR')), C.fmt(right))}
+            by_queue = {}
+            for qn, k_, it_ in qins:
+                by_queue.setdefault(qn, set()).add((k_, it_))
+            okq = any(want_q <= v for v in by_queue.values())
+            ctx.check(okq, rid, ins.short, loc,
+                      'hinted insertion queues both the new interval and its right neighbour with their characteristics',
+                      f'hinted insertion queues {sorted(qins)}; both (new.globalR, new) and (right.globalR, right) must '
+                      f'enter the characteristics queue, otherwise an interval with maximal characteristic is never '
+                      f'selected until the next refill', key=f'{rid}::{ins.short}::queues-both')
     ctx.floor(rid, f'normal paths of {ins.short}', n, 2)
     return {'paths': summaries}
 
